@@ -30,6 +30,12 @@ def prefs(name):
     if name == 'P3':
         return dict(usage={KeyFlags.Certify}, hashes=[HashAlgorithm.SHA384, HashAlgorithm.SHA256], ciphers=[SymmetricKeyAlgorithm.Camellia256],
                     compression=[CompressionAlgorithm.ZIP], primary=False)
+    if name == 'P4':
+        # the same kind of preferences with the key expiry given as a point in time, in a zone that is not UTC (the API takes timedelta or datetime)
+        from datetime import datetime, timezone
+        when = datetime.fromtimestamp(K.T0 + 86400 * 4000 + 1800, timezone(timedelta(hours=-8)))
+        return dict(usage={KeyFlags.Certify, KeyFlags.Sign}, hashes=[HashAlgorithm.SHA256], ciphers=[SymmetricKeyAlgorithm.AES192],
+                    compression=[CompressionAlgorithm.ZLIB], key_expiration=when)
     raise KeyError(name)
 
 
@@ -38,10 +44,11 @@ def prefs_view(name):
     p = prefs(name)
     return {'flags': frozenset(int(f) for f in p['usage']), 'hashes': tuple(int(h) for h in p['hashes']), 'ciphers': tuple(int(c) for c in p['ciphers']),
             'compression': tuple(int(c) for c in p['compression']), 'primary': bool(p.get('primary', False)),
-            'expiry': int(p['key_expiration'].total_seconds()) if 'key_expiration' in p else None}
+            'expiry': (int(p['key_expiration'].total_seconds()) if hasattr(p['key_expiration'], 'total_seconds') else int(p['key_expiration'].timestamp()) - K.T0)
+            if 'key_expiration' in p else None}
 
 
-OPS = ['add_uid_B', 'add_uid_img', 'add_sub_sign', 'add_sub_enc', 'recert_A_P2', 'recert_A_P3_same_second', 'recert_A_P2_generic_same_second', 'recert_B_P3', 'third_party_A', 'third_party_A_local', 'third_party_A_keyid_only',
+OPS = ['add_uid_B', 'add_uid_img', 'add_sub_sign', 'add_sub_enc', 'recert_A_P2', 'recert_A_P4', 'recert_A_P3_same_second', 'recert_A_P2_generic_same_second', 'recert_B_P3', 'third_party_A', 'third_party_A_local', 'third_party_A_keyid_only',
        'revoke_uid_A', 'revoke_sub0', 'revoke_key', 'add_revoker', 'del_uid_B', 'protect', 'derive_pub', 'copy', 'export_import_bin', 'export_import_asc',
        'direct_sig', 'direct_third_local', 'release_pub']
 
@@ -69,7 +76,7 @@ class Model(object):
             return not any(s['kind'] == 'sign' for s in self.subs)
         if op == 'add_sub_enc':
             return not any(s['kind'] == 'enc' for s in self.subs)
-        if op in ('recert_A_P2', 'recert_A_P3_same_second', 'recert_A_P2_generic_same_second', 'third_party_A', 'third_party_A_local', 'third_party_A_keyid_only'):
+        if op in ('recert_A_P2', 'recert_A_P4', 'recert_A_P3_same_second', 'recert_A_P2_generic_same_second', 'third_party_A', 'third_party_A_local', 'third_party_A_keyid_only'):
             return 'A' in u
         if op == 'recert_B_P3':
             return 'B' in u
@@ -158,9 +165,9 @@ class World(object):
             key.add_subkey(sk, usage={KeyFlags.Sign} if op == 'add_sub_sign' else {KeyFlags.EncryptCommunications, KeyFlags.EncryptStorage}, created=t)
             self.sub_raws[name] = sraw
             m.subs.append({'kind': 'sign' if op == 'add_sub_sign' else 'enc', 'name': name, 'revoked': False})
-        elif op in ('recert_A_P2', 'recert_A_P3_same_second', 'recert_A_P2_generic_same_second', 'recert_B_P3'):
+        elif op in ('recert_A_P2', 'recert_A_P4', 'recert_A_P3_same_second', 'recert_A_P2_generic_same_second', 'recert_B_P3'):
             who = 'B' if op == 'recert_B_P3' else 'A'
-            pn = 'P2' if op in ('recert_A_P2', 'recert_A_P2_generic_same_second') else 'P3'
+            pn = 'P4' if op == 'recert_A_P4' else 'P2' if op in ('recert_A_P2', 'recert_A_P2_generic_same_second') else 'P3'
             same = op.endswith('same_second')
             level = SignatureType.Generic_Cert if 'generic' in op else SignatureType.Positive_Cert
             if same:
